@@ -373,6 +373,7 @@ UNITS = {
         items=[
             I(MAP, r'^impl < K , V , S , A : Allocator > HashMap < K , V , S , A >$', 'retain', impl='HashMap<K, V>', key='HashMap::retain'),
             I('src/table.rs', r'^impl < T , A > HashTable < T , A > where A : Allocator ,$', 'retain', impl='HashTable<T>', key='HashTable::retain'),
+            I(RAW, r'^impl < T , A : Allocator > RawExtractIf < \'_ , T , A >$', 'next', impl='RawExtractIf<T>', key='RawExtractIf::next'),
         ],
     ),
 }
@@ -1545,6 +1546,24 @@ def retain_rules(toks, i, out, hit):
         out.extend([T('f', t.gap), T('.', ''), T('call_on', ''), T('(', ''), T('&', ''), T('item', ''), T(')', '')])
         hit('R41_predicate_call_on_bucket')
         return i + 6
+    # R7e (as in unit pardrain): `for X in &mut EXPR {` -> `loop { match EXPR.next() { Some(X) => {..} None => break, } }`
+    if t.kind == 'id' and t.text == 'for' and out and out[-1].text in (';', '{', '}') and toks[i + 1].kind == 'id' and seq(i + 2, 'in', '&', 'mut'):
+        k = i + 5
+        while toks[k].text != '{':
+            k += 1
+        E = extract.rewrite(toks[i + 5:k], set(), _HITS, retain_rules)
+        close = extract._find_close(toks, k)
+        body = extract.rewrite(toks[k + 1:close], set(), _HITS, retain_rules)
+        out.extend([T('loop', t.gap), T('{'), T('match')] + E + [T('.', ''), T('next', ''), T('(', ''), T(')', ''), T('{'),
+                    T('Some'), T('(', ''), T(toks[i + 1].text, ''), T(')', ''), T('='), T('>', ''), T('{')])
+        out.extend(body)
+        out.extend([T('}', '\n'), T('None'), T('='), T('>', ''), T('{'), T('break'), T(';', ''), T('}'), T('}', '\n'), T('}', '\n')])
+        hit('R7e_for_over_mut_ref_iterator_to_loop')
+        return close + 1
+    if t.text == 'FnMut' and seq(i + 1, '(', '&', 'mut', 'T', ')', '-', '>', 'bool'):
+        out.extend([T('RetainFn', t.gap), T('<', ''), T('T', ''), T('>', '')])
+        hit('R41_predicate_bound_to_RetainFn')
+        return i + 9
     if t.kind == 'id' and t.text == 'for':
         _FLAGS['top_rules'] = retain_rules
         try:
